@@ -62,6 +62,7 @@ def mutate_mesh(src, m1):
 def run_case(ctx):
     src = ctx.src
     common.draw_env(ctx)
+    common.prelude(ctx)
     negative = src.flag("negative", 5)
     t = tools.CombineT()
     t.draw(ctx, src)
